@@ -46,7 +46,11 @@ Compute == /\ comps < MaxComputes
            /\ UNCHANGED <<case, pos, n, inited, acc, rej, nb>>
 
 \* P: a rejected call leaves everything as it was (fault kinds are interpreted by the harness)
-Reject(f) == /\ rej < MaxRejects
+\* a fault kind is applicable "any" time, only once "inited" (a shape differing from earlier batches), or only as
+\* the "first" call (faults detected by the first-call initialisation)
+Applicable(f) == LET w == Cases[case].faults[f].when IN
+                 w = "any" \/ (w = "inited" /\ inited) \/ (w = "first" /\ ~inited)
+Reject(f) == /\ rej < MaxRejects /\ Applicable(f)
              /\ rej' = rej + 1 /\ comps' = 0
              /\ Log([op |-> "reject", k |-> f, n |-> n, acc |-> acc])
              /\ UNCHANGED <<case, pos, n, inited, acc, nb>>
